@@ -87,31 +87,56 @@ def anyReaches (e : Env) : Nat → List Name → Name → List Name → Bool × 
     | (false, v) => anyReaches e f ss target v
 end
 
-/-- enough for every graph: each recursive call either stops or adds a fresh declaration to `visited` -/
-def Env.walkFuel (e : Env) : Nat := 2 * (e.decls.length + 1) * (e.decls.length + 2) + 4
+/-- number of declarations plus super-type entries: bounds every walk over the declaration graph -/
+def Env.size (e : Env) : Nat := e.decls.length + (e.decls.map (·.supers.length)).sum
+
+/-- enough for every graph: each recursive call either stops or adds a fresh declaration to `visited`,
+and scanning a super list spends one unit per entry -/
+def Env.walkFuel (e : Env) : Nat := 2 * e.size + 4
 
 /-- `get_super_types_iter`: the super types minus the edges that close a cycle -/
 def Env.supersIter (e : Env) (n : Name) : Option (List Name) :=
   (e.supersOf n).map fun ss => ss.filter fun s => !(superReaches e e.walkFuel s n []).1
 
-/-- the `while let Some(current) = stack.pop()` loop of `check_sub_type_of_iterative`;
-`stack` and `visited` as in the source, `fuel` bounds the number of pops -/
+/-- list without repetitions (first occurrences from the right) -/
+def nodupOf : List Name → List Name
+  | [] => []
+  | x :: xs => if x ∈ nodupOf xs then nodupOf xs else x :: nodupOf xs
+
+/-- `l` without `x` -/
+def without (x : Name) : List Name → List Name
+  | [] => []
+  | y :: ys => if y = x then without x ys else y :: without x ys
+
+/-- `rem` without the members of `fresh` -/
+def withoutAll (rem : List Name) : List Name → List Name
+  | [] => rem
+  | x :: xs => without x (withoutAll rem xs)
+
+/-- every name that can ever be pushed by the sub-type walk: the super-type entries of the graph -/
+def Env.superNames (e : Env) : List Name := nodupOf (e.decls.flatMap (·.supers))
+
+/-- the `while let Some(current) = stack.pop()` loop of `check_sub_type_of_iterative`.
+The `visited` hash set is represented by its complement `rem` within `superNames` (every id the loop
+can insert is a super-type entry): `visited.insert(id)` succeeds iff `id ∈ rem`, and removes it. -/
 def subTypeLoop (e : Env) (target : Name) : Nat → List Name → List Name → Bool
   | 0, _, _ => false
   | _, [], _ => false
-  | f + 1, cur :: stack, vis =>
+  | f + 1, cur :: stack, rem =>
     match e.supersIter cur with
-    | none => subTypeLoop e target f stack vis
+    | none => subTypeLoop e target f stack rem
     | some ss =>
       if ss.contains target then true
       else
-        let fresh := (ss.foldl (fun (acc : List Name × List Name) s =>
-          if s ∈ acc.2 then acc else (s :: acc.1, s :: acc.2)) ([], vis))
-        subTypeLoop e target f (fresh.1 ++ stack) fresh.2
+        let fresh := nodupOf (ss.filter (· ∈ rem))
+        subTypeLoop e target f (fresh.reverse ++ stack) (withoutAll rem fresh)
 
 /-- `is_sub_type_of(db, sub, super)` -/
 def isSubTypeOf (e : Env) (sub sup : Name) : Bool :=
-  if sub = sup then true else subTypeLoop e sup (e.decls.length + 2) [sub] [sub]
+  if sub = sup then true
+  else
+    let rem := without sub e.superNames
+    subTypeLoop e sup (rem.length + 2) [sub] rem
 
 /-! ## predicates of `LuaType` -/
 
